@@ -112,7 +112,7 @@ Tl(s) == SubSeq(s, 2, Len(s))
 Subscribe(c) == /\ cact' = [cact EXCEPT ![c] = TRUE]
                 /\ cur'  = [cur EXCEPT ![c] = head[MR] + Len(q[MR])]
 CStart(c) ==
-  /\ pc[c] = "idle" /\ ~faulted
+  /\ pc[c] = "idle"
   /\ IF SubscribeFirst THEN Subscribe(c) /\ pc' = [pc EXCEPT ![c] = "lock"]
      ELSE UNCHANGED <<cact, cur>> /\ pc' = [pc EXCEPT ![c] = "lock"]
   /\ UNCHANGED <<res, wlock, wire, net, rd, q, head, open, closed, subs, sst, scur, should, got, answered, strays, sigsSent, faults, faulted>>
@@ -153,7 +153,7 @@ CDrop(c) ==
      ELSE UNCHANGED <<q, head, cact>>
   /\ pc' = [pc EXCEPT ![c] = "done"]
   /\ UNCHANGED <<cur, res, wlock, wire, net, rd, open, closed, subs, sst, scur, should, got, answered, strays, sigsSent, faults, faulted>>
-\* a call started after the transport failed completes with an error at once (write fails / reader gone)
+\* a call started after the reader stopped may also fail before anything is written (e.g. the write side is gone too)
 CStartAfterFault(c) ==
   /\ pc[c] = "idle" /\ faulted /\ rd.st = "stopped"
   /\ res' = [res EXCEPT ![c] = R("ioerr", 0)] /\ pc' = [pc EXCEPT ![c] = "done"]
